@@ -10,6 +10,7 @@ import itertools
 
 from mc import env  # noqa: F401
 from mc.refmodel import rfc_text as R
+from mc.refmodel import rfc_props as RP
 
 from icalendar.cal import Event, Calendar
 from icalendar.prop import vText, vCategory
@@ -19,6 +20,7 @@ CORE8 = ("\\", "n", ";", ",", ":", "%", "\n", "a")
 POOL = ("\t", "\x00", "\x85", "\u2028", "é", "\U0001F600", "\x7f", "3", "B", "5", "A", "=", "'", "^", "\u2029", "\x0b",
         "\u00a0", "\u0301", "\ufeff", "\u200b")
 PROP_NAMES = ("SUMMARY", "DESCRIPTION", "X-TEXT")
+TEXT_NAMES = tuple(sorted(n for n, (t, _a, _l, _x) in RP.PROPS.items() if t == "TEXT" and n not in ("CATEGORIES",) + PROP_NAMES))
 SHAPES = ("s,x", "x,s", "s", "s,s")
 
 
@@ -184,8 +186,50 @@ def run_list(case):
             "outcome": outcome}
 
 
+TWICE = ("s,e", "e,s", "s,s", "e,e", "e,s,e")
+
+
+def run_twice(case):
+    """('twice', NAME, shape, s): the property occurs several times in one component, some occurrences empty (e)."""
+    _, name, shape, s = case
+    items = [s if t == "s" else "" for t in shape.split(",")]
+    fails = []
+    ev = Event()
+    for i in items:
+        ev.add(name, i)
+    data, back, evs = parse_event(ev)
+    lines = [f"{name}:" + vText(i).to_ical().decode("utf-8") for i in items]
+    preds = [predicted_prop(ln) for ln in lines]
+    trig = any(R.ph_triggered(ln) for ln in lines)
+    got = evs[0].get(name) if len(evs) == 1 else None
+    vals = got if isinstance(got, list) else ([] if got is None else [got])
+    if len(evs) != 1 or list(evs[0].keys()) not in ([name], []) or len(vals) != len(items) or evs[0].errors:
+        obs = ("structure", [(c.name, [(k, len(v) if isinstance(v, list) else 1) for k, v in c.items()], c.errors) for c in back.walk()])
+        n_rej = sum(1 for p_ in preds if p_ == ("rejected",))
+        if trig and n_rej and len(evs) == 1 and len(vals) == len(items) - n_rej and len(evs[0].errors) == n_rej:
+            fails.append(fail("twice:rejected", case, f"{len(items)} x {name}", obs, known="C07-placeholders"))
+        else:
+            fails.append(fail("twice:occurrences-differ", case, f"{len(items)} x {name}", obs))
+        return {"state": ("twice", name, shape, repr(obs)), "trans": 3, "nontrivial": True, "fails": fails, "outcome": "twice-structure"}
+    outcome = "twice-ok"
+    for i, (item, v, ln, pr) in enumerate(zip(items, vals, lines, preds)):
+        obs = str(v)
+        if not isinstance(v, vText):
+            fails.append(fail("twice:wrong-class", case, "vText", type(v).__name__))
+        elif obs not in R.expected_decodes(item):
+            if R.ph_triggered(ln) and pr == ("value", obs):
+                fails.append(fail("twice:decode-differs", case, sorted(R.expected_decodes(item)), (i, obs), known="C07-placeholders"))
+                outcome = "twice-known"
+            else:
+                fails.append(fail("twice:decode-differs", case, sorted(R.expected_decodes(item)), (i, obs)))
+                outcome = "twice-FAIL"
+    return {"state": ("twice", name, shape, tuple(str(v) for v in vals)), "trans": 3, "nontrivial": True, "fails": fails, "outcome": outcome}
+
+
 def run_case(case):
     kind = case[0]
+    if kind == "twice":
+        return run_twice(case)
     if kind == "codec":
         return run_codec(case)
     if kind == "prop":
@@ -203,7 +247,7 @@ def run(ctx):
     chosen = ([pairs[ctx.seed % len(pairs)], ("\ufeff", "\u00a0")] if ctx.quick else pairs)
     ctx.rule = (f"E-enum: every string over the 14-symbol critical alphabet with |s|<={k} on all paths (codec str+bytes; "
                 f"property SUMMARY/DESCRIPTION/X-TEXT via Event.add->to_ical->from_ical; CATEGORIES item in shapes "
-                f"{SHAPES}); codec and SUMMARY additionally up to |s|<={kc}; plus core-8 symbols joined by "
+                f"{SHAPES}; COMMENT/X-TEXT occurring 2-3 times in one component with empty occurrences, |s|<=3); every other TEXT property name of RFC 5545 at |s|<=2; codec and SUMMARY additionally up to |s|<={kc}; plus core-8 symbols joined by "
                 f"{len(chosen)} pair(s) of 20 other characters incl. non-ASCII blanks, a combining mark, U+FEFF and U+200B (seed-rotated in quick, all 190 pairs in thorough) at "
                 "|s|<=4. non-trivial = s contains a character that escaping changes.")
     ctx.bounds = {"alphabet": [repr(c) for c in CORE], "k_all_paths": k, "k_codec_summary": kc,
@@ -234,7 +278,21 @@ def run(ctx):
                 yield ("prop", "SUMMARY", s)
                 yield ("list", "s,x", s)
 
+    def gen_twice():
+        for s in strings(CORE, 3):
+            for n in ("COMMENT", "X-TEXT"):
+                for sh in TWICE:
+                    yield ("twice", n, sh, s)
+
+    def gen_names():
+        # every TEXT-typed property name of RFC 5545 carries its value the same way (no name splits or trims on its own)
+        for n in TEXT_NAMES:
+            for s in strings(CORE, 2):
+                yield ("prop", n, s)
+
     ctx.explore("core-alphabet:all-paths", gen_main, run_case)
+    ctx.explore("every-TEXT-property-name", gen_names, run_case)
+    ctx.explore("repeated-property-with-empty-occurrences", gen_twice, run_case)
     if kc > k:
         ctx.explore("core-alphabet:deep-codec+summary", gen_deep, run_case)
     ctx.explore("other-unicode-pairs", gen_extra, run_case)
